@@ -121,6 +121,11 @@ func read[EntityT entity.Interface](def Definition, wrapper func(e *Entity) Enti
 		}
 	}
 
+	// A breadth-first discovery order is not always a topological order: with branches of
+	// different length, a commit can be discovered through a short branch before one of its
+	// descendants that is only reachable through a longer one.
+	BFSOrder = topologicalOrder(BFSOrder)
+
 	// Now, we can reverse this topological order and read the commits in an order where
 	// we are sure to have read all the chronological ancestors when we read a commit.
 
@@ -242,6 +247,42 @@ func read[EntityT entity.Interface](def Definition, wrapper func(e *Entity) Enti
 		createTime: createTime,
 		editTime:   editTime,
 	}), nil
+}
+
+// topologicalOrder re-orders a set of commits, closed over the parent relation and given in discovery
+// order, so that every commit comes before all of its parents (Kahn's algorithm). The discovery order is
+// used to break ties, which makes the result deterministic.
+func topologicalOrder(commits []repository.Commit) []repository.Commit {
+	byHash := make(map[repository.Hash]repository.Commit, len(commits))
+	pendingChildren := make(map[repository.Hash]int, len(commits))
+	for _, commit := range commits {
+		byHash[commit.Hash] = commit
+	}
+	for _, commit := range commits {
+		for _, parent := range commit.Parents {
+			pendingChildren[parent]++
+		}
+	}
+
+	result := make([]repository.Commit, 0, len(commits))
+	var ready []repository.Hash
+	for _, commit := range commits {
+		if pendingChildren[commit.Hash] == 0 {
+			ready = append(ready, commit.Hash)
+		}
+	}
+	for len(ready) > 0 {
+		commit := byHash[ready[0]]
+		ready = ready[1:]
+		result = append(result, commit)
+		for _, parent := range commit.Parents {
+			pendingChildren[parent]--
+			if pendingChildren[parent] == 0 {
+				ready = append(ready, parent)
+			}
+		}
+	}
+	return result
 }
 
 // readClockNoCheck fetch from git, read and witness the clocks of an Entity at an arbitrary git reference.
